@@ -23,6 +23,9 @@ namespace GeographicLib {
     real lon12 = Math::AngDiff(lon1, lon2);
     lon1 = Math::AngNormalize(lon1);
     lon2 = Math::AngNormalize(lon2);
+    // A west-going edge ending on the antimeridian ends at -180 (AngNormalize
+    // returns +180 for, e.g., lon2 = 180 or 540)
+    if (lon12 < 0 && lon2 == Math::hd) lon2 = -Math::hd;
     // N.B. lon12 == 0 gives cross = 0
     return
       // edge case lon1 = 180, lon2 = 360->0, lon12 = 180 to give 1
